@@ -1355,3 +1355,10 @@ variant("cfg4-flag-read-through-helper-at-call-time", ["C20", "C04"], GRAPH, [""
 
 def _active_vertices_connected(
 """], "the helper reads the configuration when it is called")
+# found by the second-generation mutation sweep: dispatch of the function forms cond / then on which operand is the array
+mutant("opc6a-cond-ignores-array-condition", "C12", CONS, """    if isinstance(c, (BoolArray1D, BoolArray2D)):
+        shape = c.shape
+    elif isinstance(t, (IntArray1D, IntArray2D)):""", """    if isinstance(t, (IntArray1D, IntArray2D)):""", "OPC-6A")
+mutant("opc6a-cond-ignores-array-else-branch", "C12", CONS, """    elif isinstance(f, (IntArray1D, IntArray2D)):
+        shape = f.shape
+""", "", "OPC-6A")
